@@ -153,7 +153,7 @@ var formatSamples = map[string][]string{
 // FormatProbes: boundary strings per format (both sides and undecided ones).
 var FormatProbes = map[string][]string{
 	"email": {"a@b.co", "john.doe@example.com", "", " a@b.co", "a@b.co ", "<a@b.co>", "ab.co", "a@", "@b.co", "John <a@b.co>", "a b@c.de", "a@b", "a@@b.co", "a@b..co", "a+tag@b.co", "\"q\"@b.co"},
-	"uri": {"http://example.com", "https://a.b/c?d=e#f", "", "example.com", "/relative/path", "//host/path", "http://", "http:///path", "mailto:a@b.co", "http://h/ space", "HTTP://EXAMPLE.COM/", "x://y", "1http://a.b", "http://[::1]/", "http://a.b:8080/p", "file:///etc/passwd"},
+	"uri": {"http://example.com", "https://a.b/c?d=e#f", "", "example.com", "/relative/path", "//host/path", "http://", "http:///path", "mailto:a@b.co", "http://h/ space", "HTTP://EXAMPLE.COM/", "x://y", "1http://a.b", "http://[::1]/", "http://a.b:8080/p", "file:///etc/passwd", "http://:8080/path", "https://:443/", "http://:/", "http://user:pw@:80/path", "http://user@/path", "http://user@h.x/path", "http://h.x:/p"},
 	"uuid": {"550e8400-e29b-41d4-a716-446655440000", "{550e8400-e29b-41d4-a716-446655440000}", "urn:uuid:550e8400-e29b-41d4-a716-446655440000", "URN:UUID:550e8400-e29b-41d4-a716-446655440000", "550e8400e29b41d4a716446655440000",
 		"550e8400-e29b-41d4-a716-44665544000", "550e8400-e29b-41d4-a716-4466554400000", "550e8400-e29b-41d4-a716-44665544000g", "550e8400_e29b-41d4-a716-446655440000", "[550e8400-e29b-41d4-a716-446655440000]", "urn:uuix:550e8400-e29b-41d4-a716-446655440000",
 		"550e8400e29b41d4a71644665544000g", "550e8400-e29b41d4-a716-4466554400000", "", "{550e8400-e29b-41d4-a716-446655440000)", "550e8400-e29b-41d4-a716-4466-5440000"},
